@@ -360,3 +360,8 @@ Print Assumptions C11_fault_example_reads.
 Print Assumptions C11_fault_example_invariant.
 Print Assumptions C11_fault_example_not_a_cancel_outcome.
 Print Assumptions C11_fault_example_reads_as_before.
+
+(* a delete whose append to the active blob fails has touched no closed blob (structural fact re-extracted on every run) *)
+Theorem C11_source_delete_active_before_closed : Pearl.Generated.Facts.DELETE_ACTIVE_BEFORE_CLOSED = true.
+Proof. reflexivity. Qed.
+Print Assumptions C11_source_delete_active_before_closed.
